@@ -242,6 +242,9 @@ func c11Configs(tier string, race bool) []c11Cfg {
 			for _, bv := range []bool{false, true} {
 				r = append(r, c11Cfg{T: s.t, C: s.C, L: s.L, K: s.K, G: G, M: M, ByValue: bv, Bound: bound, EnvCost: envCost})
 			}
+			// copies of the allocator value taken after it has been used (a Get/Put round): state that the
+			// allocator keeps in its own value, not behind a pointer, is duplicated by the copy
+			r = append(r, c11Cfg{T: s.t, C: s.C, L: s.L, K: s.K, G: G, M: M, ByValue: true, Bound: bound, EnvCost: envCost, Warm: true})
 		}
 	}
 	// long buffers (>= 1024 samples, > 32 KiB), allocator warmed up before it is copied
